@@ -64,7 +64,8 @@ class Engine:
         path_manager = create_path(
             self.configuration, self.coupling_process.fine_process.deterministic_path
         )
-        self.path_managers.append(path_manager)
+        # one list per pricing: the path managers of an earlier pricing on this engine must not be indexed by level
+        self.path_managers = [path_manager]
         self.coupling_process.pre_computation(
             mc_paths=self.configuration.initial_mc_paths, product=product
         )
